@@ -24,6 +24,9 @@ CHECKS = {
  "C18": dict(technique="bounded exhaustive enumeration of edit lists x spellings against the list being printed (reference model = the edit list itself)",
              text="Every list of k<=2 edits (k=3 over a reduced alphabet) in every accepted spelling (8 name shapes x 6 value shapes x ':'/'='/direct x multiplier forms x computed x 4 list separators x with/without reason text) is run through the real st command; the callback log must equal the generated list exactly and RestInput must be exactly the reason.",
              note="Spelling alphabet is finite (names/values listed in c18.go); one grammar quirk is a known finding (parenthesised value followed by a computed edit).", ref="DESIGN.md §4 C18"),
+ "C13": dict(technique="bounded exhaustive enumeration of texts x delimiter styles and of template segment sequences, with a differential hole-value oracle on a second VM",
+             text="Every text up to 4 (thorough 5) symbols over a 14-symbol alphabet rich in quotes, backslashes, braces, CR/LF/TAB, CJK and 0x1E, in each of the 4 delimiter styles where the documented escapes can spell it, must evaluate to exactly that text. Every template of <=2 (thorough 3) segments over 5 literal texts and 21 hole programs x 2 hole styles x 2 delimiters, all hole/literal/hole shapes and nesting ladders 1..24 must equal the concatenation of the literal texts and the string forms of hole values computed by evaluating each hole program alone, in order, on a second VM; variables must agree.",
+             note="Texts longer than the bound / symbols outside the alphabet are not covered; hole value semantics is taken from evaluating the hole alone (differential), with block-ending holes contributing ''.", ref="DESIGN.md §4 C13"),
 }
 PENDING = {}
 def main():
